@@ -51,11 +51,8 @@ package core
 //@ func (*ObjectStream) decode results (err)
 //@   property C02
 //@   requires os.first >= 0 && os.n >= 0
-//@   requires isnil(os.decoded) || len(os.offsets) == os.n
 //@   ensures frame: os.first == old(os.first) && os.n == old(os.n)
-//@   ensures decoded: !err ==> !isnil(os.decoded) && len(os.offsets) == os.n
 
 //@ func (*ObjectStream) GetObjectByIndex results (obj, num, err)
 //@   property C02
 //@   requires os.first >= 0 && os.n >= 0
-//@   requires isnil(os.decoded) || len(os.offsets) == os.n
